@@ -32,6 +32,8 @@ def run(ctx):
     ctx.step(value, ctx)
     ctx.step(pair, ctx)
     ctx.step(common.raii_only, ctx, "C17.raii", ["SearchableObjectHolder.hpp"], floor=10)
+    if ctx.tier == "thorough":
+        ctx.step(cppcheck_xref, ctx)
 
 
 def value(ctx):
@@ -184,3 +186,30 @@ def _is_second_of_emplace(f, e):
                         return init is not None and init["k"] == "CXXMemberCallExpr" and \
                             init["callee"]["name"] == "emplace" and path(f, f.s(init["obj"])) == "this.objectMap"
     return False
+
+
+def cppcheck_xref(ctx):
+    """thorough tier cross-reference (not a deciding rule): cppcheck 2.10's own eraseDereference check over the same
+    header must agree with C17.iter; a disagreement means one of the two engines is wrong => analysis broken"""
+    import os
+    import subprocess
+    import tempfile
+    from ..runner import REPO
+    rid = "C17.xref"
+    ctx.rule(rid, "cross-reference: cppcheck's eraseDereference agrees with the iterator typestate rule", floor=1)
+    d = tempfile.mkdtemp(prefix="vcpp_", dir="/tmp")
+    try:
+        src = os.path.join(d, "soh.cpp")
+        open(src, "w").write('#include "concurrency/SearchableObjectHolder.hpp"\n'
+                             'template class gmlc::concurrency::SearchableObjectHolder<std::string, int>;\n')
+        r = subprocess.run(["cppcheck", "--enable=warning", "--inconclusive", "--std=c++17", "-I", os.path.join(REPO, "gmlc"),
+                            "--template={file}:{line}:{id}:{message}", src], stdout=subprocess.PIPE, stderr=subprocess.STDOUT, text=True)
+        hits = [l for l in r.stdout.splitlines() if ":eraseDereference:" in l and "SearchableObjectHolder.hpp" in l]
+    finally:
+        import shutil
+        shutil.rmtree(d, ignore_errors=True)
+    mine = [o for o in ctx.obs if o["rule"] == "C17.iter" and not o["ok"]]
+    if bool(hits) != bool(mine):
+        ctx.broken("cppcheck and C17.iter disagree: cppcheck %s, C17.iter %s" % (hits[:2], [o["site"] for o in mine][:2]))
+    ctx.ob(rid, True, "gmlc/concurrency/SearchableObjectHolder.hpp", "cppcheck eraseDereference: %d report(s); C17.iter: %d violation(s)"
+           % (len(hits), len(mine)))
